@@ -46,6 +46,12 @@ func (ex *Exec) unop(g *G, x *ssa.UnOp, v Value) Value {
 }
 
 func (ex *Exec) fneg(a Flt) Flt {
+	if a.Sp != spFin {
+		if a.Sp == spNaN {
+			return a
+		}
+		return special(a.Bits, 3-a.Sp)
+	}
 	if a.T == nil {
 		if ex.FPMode {
 			return Flt{Bits: a.Bits, F: -a.F}
@@ -119,6 +125,9 @@ func (ex *Exec) eqTerm(a, b Value) *Term {
 	case Int:
 		return ts.Eq(ex.intTerm(x), ex.intTerm(b.(Int)))
 	case Flt:
+		if y := b.(Flt); x.Sp != spFin || y.Sp != spFin {
+			return ts.BoolC(x.Sp == y.Sp) // "the same value": NaN matches NaN here
+		}
 		return ts.Eq(ex.fltTerm(x), ex.fltTerm(b.(Flt)))
 	case Bool:
 		return ts.Eq(ex.boolTerm(x), ex.boolTerm(b.(Bool)))
@@ -397,6 +406,9 @@ func (ex *Exec) fltBinop(op token.Token, a, b Flt) Value {
 		panic(unsupported{fmt.Sprintf("fp binop %v", op)})
 	}
 	// real mode
+	if a.Sp != spFin || b.Sp != spFin {
+		return ex.spBinop(op, a, b)
+	}
 	if a.T == nil && b.T == nil {
 		x, y := a.R, b.R
 		switch op {
@@ -410,6 +422,9 @@ func (ex *Exec) fltBinop(op token.Token, a, b Flt) Value {
 			if y.Sign() == 0 {
 				// concrete division by zero (NaN/Inf natively): an unspecified but
 				// functional value, so that identical computations still agree
+				if ex.IEEE {
+					return ex.ieeeDivZero(a)
+				}
 				return ex.divZero(a)
 			}
 			return Flt{Bits: a.Bits, R: new(big.Rat).Quo(x, y)}
@@ -450,13 +465,23 @@ func (ex *Exec) fltBinop(op token.Token, a, b Flt) Value {
 				if ex.decide(isZero) {
 					ex.ZeroDen--
 					ex.zeroDenUsed++
-					return ex.divZero(a)
+					return ex.ieeeDivZero(a)
 				}
 			} else {
+				if ex.ZeroDen > 0 && ex.spec > 0 {
+					// inside a speculative arm: if the denominator can be zero here, give up
+					// the merge so that the arm is re-run as a fork and the division decides
+					if r, _ := ex.Sol.Check([]*Term{isZero, ex.guardTerm()}, nil); r != Unsat {
+						panic(mergeAbort{"zero-denominator fork in arm"})
+					}
+				}
 				ex.sideConds++
 				ex.assume(ts.Not(isZero))
 			}
 		} else if tb.rat.Sign() == 0 {
+			if ex.IEEE && ex.spec == 0 {
+				return ex.ieeeDivZero(a)
+			}
 			return ex.divZero(a)
 		}
 		return ex.fltOf(ts.RDiv(ta, tb), bits)
@@ -603,6 +628,9 @@ func (ex *Exec) intToFloat(x Int, fb int) Value {
 }
 
 func (ex *Exec) floatToInt(x Flt, tb int, tu bool) Value {
+	if x.Sp != spFin {
+		panic(unsupported{"conversion of " + spName(x.Sp) + " to an integer (implementation-defined)"})
+	}
 	if x.T == nil {
 		if ex.FPMode {
 			return mkInt(int64(x.F), tb, tu)
@@ -628,6 +656,12 @@ func (ex *Exec) floatToInt(x Flt, tb int, tu bool) Value {
 // ---- math intrinsics on Flt ----
 
 func (ex *Exec) fabs(a Flt) Flt {
+	if a.Sp != spFin {
+		if a.Sp == spNaN {
+			return a
+		}
+		return special(a.Bits, spPosInf)
+	}
 	if a.T == nil {
 		if ex.FPMode {
 			return Flt{Bits: a.Bits, F: math.Abs(a.F)}
@@ -646,6 +680,9 @@ func (ex *Exec) fmax(a, b Flt, isMax bool) Flt {
 	if !isMax {
 		op = token.LSS
 	}
+	if a.Sp == spNaN || b.Sp == spNaN {
+		return special(a.Bits, spNaN) // math.Max / math.Min propagate NaN
+	}
 	c := ex.fltBinop(op, a, b).(Bool)
 	if c.T == nil {
 		if c.C {
@@ -658,6 +695,12 @@ func (ex *Exec) fmax(a, b Flt, isMax bool) Flt {
 }
 
 func (ex *Exec) fsqrt(a Flt) Flt {
+	if a.Sp != spFin {
+		if a.Sp == spPosInf {
+			return a
+		}
+		return special(a.Bits, spNaN)
+	}
 	if ex.FPMode {
 		if a.T == nil {
 			return Flt{Bits: a.Bits, F: math.Sqrt(a.F)}
@@ -734,6 +777,9 @@ func (ex *Exec) fpow(a, b Flt) Flt {
 
 // fround: math.Round (half away from zero); floor when floor==true.
 func (ex *Exec) fround(a Flt, floor bool) Flt {
+	if a.Sp != spFin {
+		return a
+	}
 	if a.T == nil {
 		if ex.FPMode {
 			if floor {
